@@ -218,23 +218,25 @@ def check(repo, tier):
                 muls = [e for e in sc.events('inplace-op') if e['op'] == 'mul' and e['target'].buf is res.buf] if isinstance(res, Arr) else []
                 if len(muls) != p:
                     bad.append(f'{len(muls)} Hadamard factors accumulated for {p} modes')
+                from . import content
+                Qa, Qb = SymIdx(0, x1.shape[1], 'a'), SymIdx(0, x2.shape[1], 'b')
+                Qa.is_query = Qb.is_query = True
+                unknown = 0
                 for i, e in enumerate(muls):
-                    v = e['value']
-                    f = v.tags.get('factors')
-                    if not f:
-                        bad.append(f'factor {i} is not a matrix product')
-                        continue
-
-                    def info(t):
-                        anc = A.ancestors([t])
-                        roles = {a.tags.get('role') for a in anc.values() if a.tags.get('role') in ('x_1', 'x_2')}
-                        modes = {a.tags['basis'][0] for a in anc.values() if 'basis' in a.tags}
-                        return roles, modes
-                    (r1, mo1), (r2, mo2) = info(f[0]), info(f[1])
-                    if r1 != {'x_1'} or r2 != {'x_2'}:
-                        bad.append(f'factor {i}: the two operands are built from {sorted(r1)} and {sorted(r2)} instead of x_1 and x_2')
-                    if mo1 != {i} or mo2 != {i}:
-                        bad.append(f'factor {i}: functions of modes {sorted(mo1)} / {sorted(mo2)} instead of mode {i}')
+                    # factor i at (a, b) must be  sum_k psi_{i,k}(x_1[:, a]) psi_{i,k}(x_2[:, b])  -- however it is computed (matrix product of the evaluation
+                    # matrices, sum of outer products, ...)
+                    got = content.entry(e['value'], [Qa, Qb])
+                    nfun = 2 + (i % 2)
+                    want = content.sum_([content.prod_([('basis', (i, k), ('x_1', (('all',), ('int', Qa)))), ('basis', (i, k), ('x_2', (('all',), ('int', Qb))))]) for k in range(nfun)])
+                    if got is not None and got[0] == 'prod':
+                        got = ('sum', (got,))
+                    same = content.same_content(got, want)
+                    if same is None:
+                        unknown += 1
+                    elif not same:
+                        bad.append(f'factor {i}: entry (a, b) is  {content.show(got)[:300]}  instead of  {content.show(want)[:300]}')
+                if unknown and not bad:
+                    raise AnalysisError(f'{scen}: {unknown} Hadamard factor(s) are computed in a way the entry analysis does not follow')
                 run.oblige('D3', (entry, scen, tuple(ch)), not bad)
                 if bad:
                     run.add(F(entry, 'D3', 'Gram matrix', f'{scen}: ' + '; '.join(sorted(set(bad))[:3])))
